@@ -411,7 +411,7 @@ def main(argv=None):
     n_runs = args.runs or plan["runs"]
     wall = args.wall or plan["wall"]
     t0 = time.monotonic()
-    agg = batch(prop, base_seed, n_runs, wall, args.workers, opts={"tier": args.tier})
+    agg = batch(prop, base_seed, n_runs, wall, args.workers, opts={"tier": args.tier}, chunk=plan.get("chunk"))
     # built-in determinism probe: the first runs again, in other processes, with another chunking
     recheck = min(int(os.environ.get("VERIF_RECHECK", "48")), n_runs)
     nondet = []
